@@ -22,6 +22,15 @@ def c08Bias (args : Json) : Except String Json := do
     ("itemsDef", Json.arr ((List.range nI).map (fun i => ratToJson (LK.Bias.itemBiasDef dI rs i))).toArray),
     ("usersDef", Json.arr ((List.range nU).map (fun u => ratToJson (LK.Bias.userBiasDef dU ibf rs u))).toArray)])
 
+/-- `c08.pop`: counts per item number and the ascending-count order used by the sort → the count / average-rank / cumulative-share scores -/
+def c08Pop (args : Json) : Except String Json := do
+  let counts ← natList args "counts"
+  let order ← natList args "order"
+  let idx := List.range counts.length
+  pure (Json.mkObj [("count", Json.arr (idx.map (fun i => Json.num (JsonNumber.fromNat (LK.Bias.countOf counts i)))).toArray),
+    ("rank", Json.arr (idx.map (fun i => ratToJson (LK.Bias.avgRank counts i))).toArray),
+    ("quantile", Json.arr (idx.map (fun i => ratToJson (LK.Bias.quantile counts order i))).toArray)])
+
 /-! C09 -/
 def nbrsOf (j : Json) (k : String) : Except String (List LK.KNN.Nbr) := do
   (← getArr j k).mapM (fun e => do
